@@ -659,7 +659,7 @@ Proof.
       * apply (lin_nodup L).
       * intros i j r C; apply (lin_complete L (Hc _ _ _ C)).
       * apply (lin_legal L).
-      * intros i j r b C; apply (lin_realtime L (Hc _ _ _ C)).
+      * intros i j r b C; apply (lin_realtime L b (Hc _ _ _ C)).
     + apply (li_state I).
     + intros u o' Hu. destruct (Nat.eq_dec u t) as [->|Hne].
       * rewrite upd_same in Hu; injection Hu as <-.
@@ -721,7 +721,7 @@ Proof.
       * intros b Hb; apply nth_snoc_old, (lin_ops L b Hb).
       * apply (lin_nodup L).
       * intros i0 j r0 C.
-        destruct (completed_bound C) as [Hij Hj]. rewrite snoc_length in Hj.
+        destruct (completed_bound _ _ _ _ C) as [Hij Hj]. rewrite snoc_length in Hj.
         destruct (Nat.eq_dec j (length h)) as [->|Hne].
         -- pose proof C as (t' & o' & Hi0 & Hj0 & _ & Hall).
            rewrite nth_error_mid in Hj0; injection Hj0 as <- <-.
